@@ -10,4 +10,5 @@ for p in $(.venv/bin/python -c "import json;print(' '.join(c['property_id'] for 
 done
 .venv/bin/python tools_validate.py >/dev/null || { echo "EVIDENCE INVALID"; rc=1; }
 .venv/bin/python tools/conformance.py --cases 6 | tail -1 | grep -q "CONFORMANCE ok" || { echo "NUMPY CONTRACT CONFORMANCE FAILED"; rc=1; }
+.venv/bin/python tools/fs_conformance.py --runs 300 | tail -1 | grep -q "FS-CONFORMANCE ok" || { echo "FILE-SYSTEM MODEL CONFORMANCE FAILED"; rc=1; }
 exit $rc
